@@ -37,6 +37,14 @@ def shard(shard_no, nshards, seed, tier, extra):
         if shard_no == 0:
             reqs.append(("vm-exh", {"op": "ds", "target": "vmap", "mode": "exhaustive", "universe": 4,
                                     "len": p["vm_len"]}))
+        if shard_no in (1, 2, 3, 4):
+            # the same exhaustive enumeration starting from with_capacity(0 / 1 / 2 / 1000)
+            reqs.append(("vm-exh-cap", {"op": "ds", "target": "vmap", "mode": "exhaustive", "universe": 4,
+                                        "len": p["vm_len"], "capacity": [0, 1, 2, 1000][shard_no - 1]}))
+        if shard_no == 5:
+            # sparse keys: long gaps between occupied indices
+            reqs.append(("vm-rand-sparse", {"op": "ds", "target": "vmap", "mode": "random", "universe": 3000, "len": 30,
+                                            "count": 30, "seed": seed ^ 77}))
         for name, req in reqs:
             r = d.call(req, timeout=3000)
             cls = r.get("class")
